@@ -29,6 +29,14 @@ def _load_known(prop):
     return [f for f in data.get("findings", []) if f.get("property") == prop and f.get("status") == "open"]
 
 
+def _all_open_findings():
+    try:
+        data = json.load(open(os.path.join(HERE, "known_findings.json")))
+    except Exception:
+        return []
+    return [f for f in data.get("findings", []) if f.get("status") == "open"]
+
+
 def _write_replay(prop, name, payload):
     d = os.path.join(HERE, "out", "replay", prop)
     os.makedirs(d, exist_ok=True)
@@ -83,12 +91,23 @@ def _replay_any(rtc, case):
     for c in case:
         try:
             ok, msg = rtc.replay(c)
-        except Exception as e:  # the real code crashing on a candidate input is a failure of that input
-            ok, msg = False, f"{type(e).__name__}: {e}"
+        except Exception as e:
+            # the stand-ins catch exceptions of the REAL code themselves and report them as failures; an exception
+            # escaping replay() is a harness problem (e.g. a case in another stand-in's format): skip this candidate
+            last = (True, f"replay harness could not run a candidate ({type(e).__name__}: {e})", c)
+            continue
         if not ok:
             return False, msg, c
         last = (True, f"{len(case)} candidate inputs all satisfy the property (last: {msg})", c)
     return last
+
+
+def _unit_rtc(u, default):
+    """the stand-in whose replay() understands this unit's cases (a function can be under contract for several properties)"""
+    name = getattr(u, "replay_module", None)
+    if name:
+        return importlib.import_module(name)
+    return default
 
 
 def _standin_module(prop):
@@ -106,6 +125,8 @@ def _run(prop, a, seed, t0):
     if a.replay:
         payload = json.load(open(a.replay))
         case = payload.get("case", payload)
+        if isinstance(payload, dict) and payload.get("replay_with"):
+            rtc = importlib.import_module(payload["replay_with"])
         if case is None or rtc is None:
             print(f"replay file carries no concrete input (obligation {payload.get('obligation')}): nothing to run")
             print(json.dumps(payload, indent=1)[:3000])
@@ -145,9 +166,20 @@ def _run(prop, a, seed, t0):
         except ModuleNotFoundError:
             makers = []
         tv = time.time()
+        # findings of other properties whose witness still fails also restrict shared obligations (the same function may
+        # be under contract for several properties)
+        shared = list(active)
+        for other in _all_open_findings():
+            if other["property"] != prop and other.get("vc_region"):
+                om = _standin_module(other["property"])
+                try:
+                    if om is not None and not om.replay(other["witness"])[0]:
+                        shared.append(other)
+                except Exception:
+                    pass
         for mk in makers:
             try:
-                u = mk(a.tier, [kf for kf in active])
+                u = mk(a.tier, shared)
             except Exception as e:
                 u = UnitResult(getattr(mk, "__name__", "unit"))
                 u.outside.append((getattr(mk, "__name__", "unit"), f"generator error {type(e).__name__}: {e}"))
@@ -191,16 +223,17 @@ def _run(prop, a, seed, t0):
         if not ref:
             # candidate counterexamples (quantified hypotheses dropped): only a failing replay makes them count
             for u, o in insts:
-                if o.verdict == "candidate" and u.to_case is not None and rtc is not None and oid not in seen_refuted:
+                urtc = _unit_rtc(u, rtc)
+                if o.verdict == "candidate" and u.to_case is not None and urtc is not None and oid not in seen_refuted:
                     try:
                         case = u.to_case(o)
                     except Exception:
                         case = None
                     if case is not None:
-                        ok, msg, case = _replay_any(rtc, case)
+                        ok, msg, case = _replay_any(urtc, case)
                         if not ok:
                             seen_refuted.add(oid)
-                            path = _write_replay(prop, oid, {"property": prop, "obligation": oid, "source": "undecided VC; candidate counterexample of its quantifier-free part fails on the real code", "backend": o.backend, "solver_model": o.model, "case": case, "replay_message": str(msg)})
+                            path = _write_replay(prop, oid, {"property": prop, "obligation": oid, "source": "undecided VC; candidate counterexample of its quantifier-free part fails on the real code", "replay_with": urtc.__name__, "backend": o.backend, "solver_model": o.model, "case": case, "replay_message": str(msg)})
                             violations.append((f"obligation {oid} undecided; candidate counterexample fails on the real code: {msg}", path, False))
                             break
             undecided.append(oid)
@@ -216,11 +249,13 @@ def _run(prop, a, seed, t0):
             except Exception:
                 traceback.print_exc()
                 case = None
+        urtc = _unit_rtc(u, rtc)
         payload = {"property": prop, "obligation": oid, "kind": o.kind, "source": "refuted verification condition",
                    "backend": o.backend, "solver_model": o.model, "function_line": o.where, "case": case}
-        if case is not None and rtc is not None:
-            ok, msg, case = _replay_any(rtc, case)
+        if case is not None and urtc is not None:
+            ok, msg, case = _replay_any(urtc, case)
             payload["case"] = case
+            payload["replay_with"] = urtc.__name__
             payload["replay_message"] = str(msg)
             if ok:
                 proof_lost.append(oid)
